@@ -338,9 +338,12 @@ ColVals(rows, j) == LET rr == SelectSeq(rows, LAMBDA q : Len(q) > j) IN [i \in D
 Col(name, arr, j) ==
   LET dt == DT(arr)  rows == Rows(arr)  m == MaxSeq(Lens(rows)) IN
   IF m = 0 THEN UNSPEC                                           \* no non-empty row: no claim
-  ELSE CASE name = "colsum" -> <<"flat", ReduceType("add", dt), [c \in 1..m |-> ReduceSeq("add", dt, ColVals(rows, c - 1))]>>
+  \* float16 columns: the totals / means are the exact ones where float16 can hold them (no claim about rounding or overflow)
+  ELSE CASE name = "colsum" -> LET s == [c \in 1..m |-> ReduceSeq("add", dt, ColVals(rows, c - 1))] IN
+                               IF dt = "f2" /\ \E c \in 1..m : ~RepF2(s[c]) THEN UNSPEC ELSE <<"flat", ReduceType("add", dt), s>>
          [] name = "colcounts" -> <<"flat", "i8", [c \in 1..m |-> Len(ColVals(rows, c - 1))]>>
-         [] name = "colmean" -> <<"flat", MeanType(dt), [c \in 1..m |-> MeanSeq(dt, ColVals(rows, c - 1))]>>
+         [] name = "colmean" -> LET s == [c \in 1..m |-> MeanSeq(dt, ColVals(rows, c - 1))] IN
+                                IF dt = "f2" /\ \E c \in 1..m : ~RepF2(s[c]) THEN UNSPEC ELSE <<"flat", MeanType(dt), s>>
          [] name = "colvalues" -> IF j \in 0..m - 1 THEN <<"flat", dt, ColVals(rows, j)>> ELSE UNSPEC
          [] OTHER -> UNSPEC
 
@@ -351,6 +354,10 @@ Col(name, arr, j) ==
 RegimeGuard(out) ==
   IF Tag(out) \in {"ragged", "array"} /\ Kind(out[2]) = "u" /\ Bits(out[2]) > 16
      /\ \E r \in DOMAIN out[3] : \E c \in DOMAIN out[3][r] : out[3][r][c] < 0
+  THEN UNSPEC
+  \* float16 results are claimed where float16 holds them exactly (the specification computes in exact rationals)
+  ELSE IF Tag(out) \in {"ragged", "array"} /\ out[2] = "f2"
+          /\ \E r \in DOMAIN out[3] : \E c \in DOMAIN out[3][r] : ~RepF2(out[3][r][c])
   THEN UNSPEC ELSE out
 Expect(c) ==
   LET op == c[1] IN
